@@ -122,7 +122,7 @@ fn key_of(p: &Position) -> Key {
     (p.identity(), if p.half >= 90 { (p.half.min(250)) as u8 } else { 0 })
 }
 
-/// everything the selected properties want to know about one state
+// everything the selected properties want to know about one state
 thread_local! {
     /// a board that "held another position": Kiwipete after a few moves, odd clocks
     static DIRTY_BUFFER: Board = parse_board("r3k2r/p1ppqpb1/bn2pnp1/3PN3/1p2P3/2N2Q1p/PPPBBPPP/R3K2R b KQkq e3 37 41").unwrap();
@@ -378,6 +378,10 @@ pub enum Family {
     /// optionally a black knight on one of the pawn's capture squares: single pushes, double
     /// pushes and pawn captures that give (or do not give) direct check
     PawnPush,
+    /// one white officer (queen, rook, bishop, knight) anywhere, black king anywhere, white king in
+    /// a corner, optionally a black man on one of the officer's target squares: officer moves and
+    /// officer captures that give (or do not give) direct check - every move is played
+    OfficerCheck,
     /// ep pawns, black king anywhere, white king in a corner, one WHITE piece anywhere:
     /// en-passant captures that give direct, discovered and double checks
     EpCheck,
@@ -527,6 +531,48 @@ pub fn family_positions(fam: Family, level: u8) -> Vec<Position> {
                             out.push(p);
                             if level == 0 {
                                 break;
+                            }
+                        }
+                    }
+                }
+            }
+        }
+        Family::OfficerCheck => {
+            for officer in [Pc::Q, Pc::R, Pc::B, Pc::N] {
+                for os in 0..64u8 {
+                    // target squares of the officer on an otherwise empty board
+                    let mut lone = Position::empty();
+                    lone.turn = Col::W;
+                    place(&mut lone, os, Col::W, officer);
+                    let targets: Vec<u8> = (0..64u8).filter(|&t| t != os && lone.attackers(t, Col::W).contains(&os)).collect();
+                    let stride = if level == 0 { 4 } else { 1 };
+                    let mut victims: Vec<Option<(u8, Pc)>> = vec![None];
+                    for (i, &t) in targets.iter().enumerate() {
+                        if i % stride == (os as usize) % stride {
+                            victims.push(Some((t, if i % 2 == 0 { Pc::N } else { Pc::R })));
+                        }
+                    }
+                    for victim in victims {
+                        let mut base = Position::empty();
+                        base.turn = Col::W;
+                        base.full = 1;
+                        place(&mut base, os, Col::W, officer);
+                        if let Some((v, pc)) = victim {
+                            place(&mut base, v, Col::B, pc);
+                        }
+                        for bk in 0..64u8 {
+                            for wk in [0u8, 63, 7, 56] {
+                                let mut p = base.clone();
+                                if !place(&mut p, bk, Col::B, Pc::K) || !place(&mut p, wk, Col::W, Pc::K) {
+                                    continue;
+                                }
+                                if p.valid_root().is_err() {
+                                    continue;
+                                }
+                                out.push(p);
+                                if level == 0 {
+                                    break;
+                                }
                             }
                         }
                     }
